@@ -101,7 +101,8 @@ def run_body(rep, r, wd, quick):
                                          twins_p=0.2, deco_p=0.5, init_p=0.5))
     for p in progs_:
         mems = [n["name"] for n in p["nodes"] if n["kind"] == "mem"]
-        jobs.append({"prog": p, "steps": [{"do": "proc", "hashseed": "0"}] + [{"do": "deps", "name": m_} for m_ in mems]})
+        jobs.append({"prog": p, "steps": [{"do": "proc", "hashseed": "0"}] +
+                     [{"do": "deps", "name": m_, "how": r.choice(["", "", "", "via_verbose", "via_verbose", "via_filter"])} for m_ in mems]})
     for _ in range(30 if quick else 300):
         j = evolving_job(r)
         if j:
